@@ -239,6 +239,11 @@ def run(c, chk):
     # ---- R18.6 ---------------------------------------------------------------------------------
     user_object_released(c, chk, ex)
 
+    # ---- R18.8: an include that fails for want of memory unwinds like any other refused include ----------
+    from . import c08 as _c08
+    chk.rule('R18.8', 'every failing exit of the include function (allocation failures included) has closed the file, released the name and left the include stack as deep as it found it')
+    _c08.refused_include_leaves_nothing(c, _c08.chk_proxy(chk, {'R8.7': 'R18.8'}))
+
     # ---- R18.7: a callee that fails for want of memory is a refusal like any other: the caller's revert is complete ----
     from . import c10, c08
     chk.rule('R18.7', 'when a callee reports failure (which includes an allocation that failed inside it) after the caller has started to change '
